@@ -77,6 +77,8 @@ struct Outcome {
     steps: u64,
     sim_ns: u64,
     setup_ok: bool,
+    /// Channel.CloseOk frames the client wrote on the channel the server closes (None: stream undecodable)
+    closeok_on_n: Option<usize>,
 }
 
 fn norm(r: &OpResult) -> String {
@@ -242,6 +244,14 @@ fn run_one(seq: &[usize], v: &Variant, mode: Mode, cs: ChoiceStream, text: bool)
         steps: res.run.fin.stats.steps,
         sim_ns: res.run.fin.sim_ns,
         setup_ok: true,
+        closeok_on_n: {
+            let n = world.net.lock().unwrap();
+            crate::oracles::decode_c2s(&n.c2s).ok().map(|per| {
+                per.get(&n_id)
+                    .map(|v| v.iter().filter(|(_, _, f)| matches!(f, amq_protocol::frame::AMQPFrame::Method(_, amq_protocol::protocol::AMQPClass::Channel(amq_protocol::protocol::channel::AMQPMethod::CloseOk(_))))).count())
+                    .unwrap_or(0)
+            })
+        },
     };
     let mut rep = CaseReport::default();
     if text {
@@ -372,6 +382,15 @@ impl Scenario for C20 {
             let want = format!("ServerClosedConnection({},CONNECTION_FORCED-{})", v.code, v.code);
             if x.close.as_deref() != Some(want.as_str()) {
                 rep.violate("close-result", "not-server-close", format!("events {:?}: Connection::close returned {:?}, the server closed with {}", seq.iter().map(|k| KINDS[*k]).collect::<Vec<_>>(), x.close, want));
+                return rep;
+            }
+        }
+        // the server's channel close is answered exactly once, whatever else was pending with it (unless a
+        // connection close, from either side, may legitimately have overtaken the answer)
+        if seq.contains(&1) && !seq.contains(&0) && !(seq.contains(&2) && v.c0_kind == 2) {
+            rep.count("c20.channel_closeok_checked", 1);
+            if x.closeok_on_n != Some(1) {
+                rep.violate("channel-close-ok", if x.closeok_on_n == Some(0) { "missing" } else { "not-exactly-one" }, format!("events {:?} in one batch: the server closed channel 1, the client wrote {:?} Channel.CloseOk frames on it", seq.iter().map(|k| KINDS[*k]).collect::<Vec<_>>(), x.closeok_on_n));
                 return rep;
             }
         }
